@@ -12,7 +12,7 @@ from pyPRISM.core.Space import Space
 MA = 'pyPRISM.core.MatrixArray:MatrixArray'
 IMA = 'pyPRISM.core.IdentityMatrixArray:IdentityMatrixArray'
 SP = 'pyPRISM.core.Space:Space'
-LABELS = ['A', 'B', 'C', 'D', 'E']
+LABELS = ['C', 'A', 'D', 'B', 'E']      # deliberately not in alphabetical order (the default types, 'ABC…', are)
 import os as _os
 _THOROUGH = _os.environ.get('PYVC_TIER') == 'thorough'      # the thorough tier adds rank / type-list size 4
 RANKS_QUICK = (1, 2, 3, 4) if _THOROUGH else (1, 2, 3)
@@ -34,7 +34,7 @@ def _spaces_compatible(a, b):
 
 # --------------------------------------------------------------------------- constructor
 
-@contract('pyPRISM/core/MatrixArray.py::MatrixArray.__init__', props=['C13'])
+@contract('pyPRISM/core/MatrixArray.py::MatrixArray.__init__', props=['C13', 'C04', 'C07'])
 def MatrixArray_init(self, length, rank, data=None, space=Space.Real, types=None):
     if data is None:
         self.data = pointwise((length, rank, rank), lambda l, i, j: 0.0)
@@ -79,6 +79,15 @@ def _init_cases():
                     types = None if tk == 'none' else (list(LABELS[:n]) if tk == 'list' else list(LABELS[:n - 1]))
                     return dict(self=f.obj(MA), length=L, rank=n, data=data, space=f.enum_sym('space', SP), types=types)
                 yield 'rank=%d,data=%s,types=%s' % (n, dk, tk), build
+    for n in (2, 3):
+        for how in ('reversed', 'same'):
+            def build3(f, n=n, how=how):
+                # the same set of type names was used before, by another array, in another order
+                L = f.int('L', lo=0)
+                ts = list(LABELS[:n])
+                first = f.construct(MA, L, n, types=(ts[::-1] if how == 'reversed' else list(ts)))
+                return dict(self=f.obj(MA), length=L, rank=n, data=None, space=f.enum_sym('space', SP), types=ts, _earlier=first)
+            yield 'rank=%d,after another array with the %s type list' % (n, how), build3
 
 
 @contract('pyPRISM/core/IdentityMatrixArray.py::IdentityMatrixArray.__init__', props=['C13'])
